@@ -21,6 +21,7 @@ func checkC18(p *Prog, r *Report) {
 	c18Tables(p, t, r)
 	c18Builders(p, r)
 	c18TagLookups(p, r)
+	c18ByNameLookups(p, t, r)
 	r.Assumes("struct tags are read with the same splitting rules as model.EEBusTags (',' then ':')",
 		"encoding/json and the SHIP JSON transformation are outside the analysis")
 }
